@@ -8,7 +8,7 @@ if ! git diff --quiet; then echo "repo dirty, refusing"; exit 2; fi
 perl -0pi -e "$expr" "$file"
 if git diff --quiet; then echo "MUTATION DID NOT APPLY"; exit 3; fi
 git --no-pager diff --stat | tail -1
-cd /verif && ./check "$prop" "$tier" 2>&1 | grep -E "VIOLATION|check=|exited|error(\[|:)|evaluations=" | head -${LINES_MAX:-8}
+cd /verif && ./check "$prop" "$tier" 2>&1 | grep -a -E "VIOLATION|check=|exited|error(\[|:)|evaluations=" | head -${LINES_MAX:-8}
 rc=${PIPESTATUS[0]}
 git -C /repo checkout -- .
 echo "exit=$rc"
